@@ -398,6 +398,39 @@ def reject_tests(src, specs):
             continue
         if not infos[0].get('error'):
             bad.append(why)
+    bad += reject_tests_send(src, specs)
+    return bad
+
+
+# send side (round 3f): edits of `send` / `buffer` that leave the rules for the mutable list attribute `sbuf`
+REJECT_SEND = [
+    ('send', 'sbuf[0] of a possibly empty list', '            sbuf.append(data)\n', '            pass\n'),
+    ('send', 'second alias of the list attribute', '            sbuf = self.sbuf\n', '            sbuf = self.sbuf\n            other = sbuf\n'),
+    ('send', 'alias of the list attribute passed on', '            sbuf.append(data)\n', '            sbuf.append(data)\n            self.sock.send(sbuf)\n'),
+    ('send', 'pop from the list attribute', '            sbuf.append(data)\n', '            sbuf.append(data)\n            sbuf.pop()\n'),
+    ('send', 'slice assignment of a list that is not new', "sbuf[:] = [b''.join([s for s in sbuf if s])]", 'sbuf[:] = sbuf'),
+    ('send', 'list emptied inside the loop before sbuf[0]', '                    total_sent += sent\n', '                    total_sent += sent\n                    sbuf[:] = []\n'),
+    ('send', 'comprehension of another shape', '[s for s in sbuf if s]', '[s + s for s in sbuf if s]'),
+    ('buffer', 'list attribute rebound', '            self.sbuf.append(data)\n', '            self.sbuf = self.sbuf + [data]\n'),
+    ('buffer', 'list attribute returned', '            self.sbuf.append(data)\n        return\n', '            self.sbuf.append(data)\n        return self.sbuf\n'),
+]
+
+
+def reject_tests_send(src, specs):
+    bad = []
+    for meth, why, old, new in REJECT_SEND:
+        sp = [s for s in specs if s['py'] == meth]
+        a = src.find('    def %s(' % meth)
+        b = src.find('\n    def ', a + 1)
+        if not sp or a < 0 or b < 0 or src[a:b].count(old) != 1:
+            continue                    # the method no longer has this text: the snippet does not apply
+        text = src[:a] + src[a:b].replace(old, new) + src[b:]
+        try:
+            _, infos = T.translate_source(text, [dict(sp[0])], 'boltons.socketutils', 'snippet')
+        except SyntaxError:
+            continue
+        if not infos[0].get('error'):
+            bad.append(why)
     return bad
 
 
